@@ -247,7 +247,77 @@ def w_xcube(cfg, tier):
     return col.result()
 
 
+def uf_histories(code, k=3, seed=5):
+    """k seeded non-trivial earlier errors (weights 2..4) for the reuse histories."""
+    rg = np.random.default_rng(seed)
+    out = []
+    while len(out) < k:
+        e = np.zeros(2 * code.n, dtype=np.uint8)
+        for q in rg.choice(code.n, size=int(rg.integers(2, 5)), replace=False):
+            e[int(q) + (code.n if rg.random() < 0.5 else 0)] = 1
+        out.append(e)
+    return out
+
+
+def w_realreuse(cfg, tier):
+    """cfg = 'realreuse <decoder> <code>': a REAL deterministic decoder (its control flow is the syndrome, so it
+    is not encoded): one object decodes a seeded non-trivial earlier syndrome, then the syndrome of a solver-chosen
+    (realised) weight-2 error (both qubits, both letters); the correction must be the one a fresh decoder
+    returns, and the caller's syndrome array must be untouched."""
+    import panqec.decoders as pd_
+    from panqec.error_models import PauliErrorModel
+    parts = cfg.split(' ')
+    Dec = getattr(pd_, {'unionfind': 'UnionFindDecoder', 'matching': 'MatchingDecoder',
+                        'bposd': 'BeliefPropagationOSDDecoder'}[parts[1]])
+    code = common.make_code(parts[2])
+    n = code.n
+    col = hz.Collector(cfg)
+    col.encoded(Dec.decode)
+    em = PauliErrorModel(0.2, 0.3, 0.5)
+    firsts = uf_histories(code, k=3 if tier == 'quick' else 8)
+    eng = Engine(name=cfg, max_paths=50000)
+    with eng:
+        h = eng.integer('history', 0, len(firsts) - 1)
+        q1, q2 = eng.integer('q1', 0, n - 1), eng.integer('q2', 0, n - 1)
+        l1, l2 = eng.integer('l1', 1, 2), eng.integer('l2', 1, 2)            # 1 = X, 2 = Z
+        eng.assume_base((q1 < q2).t)
+        eng.assume_base((l1 == l2).t)         # both errors in one sector (clusters of one sector interact)
+        if tier == 'quick':
+            eng.assume_base((l1 == 1).t)
+
+        def fn():
+            e = np.zeros(2 * n, dtype=np.uint8)
+            for q, l in ((int(q1), int(l1)), (int(q2), int(l2))):
+                e[q + (n if l == 2 else 0)] = 1
+            first = firsts[int(h)]
+            s = code.measure_syndrome(e)
+            keep = s.copy()
+            dec = Dec(code, em, 0.1)
+            dec.decode(code.measure_syndrome(first))
+            r1 = np.asarray(dec.decode(s)).astype(int).tolist()
+            r2 = np.asarray(Dec(code, em, 0.1).decode(s)).astype(int).tolist()
+            return int(h), e.tolist(), r1 == r2 and bool((keep == s).all())
+        ps = eng.explore(fn)
+    col.absorb(eng)
+    bad, w = [], [None]
+    for p in ps:
+        if p.exc is not None:
+            bad.append(z3_and(p.pc))
+            w[0] = w[0] or dict(realreuse=True, exception=f'{type(p.exc).__name__}: {p.exc}')
+            continue
+        hi, e, ok = p.value
+        bad.append(z3_and(p.pc + [z3.BoolVal(not ok)]))
+        if not ok and (w[0] is None or 'second' not in w[0]):
+            w[0] = dict(realreuse=True, first=firsts[hi].tolist(), second=e)
+    col.prove(f'C06/real/{parts[1]}/reused-decoder-equals-fresh-decoder', eng.base, z3_or(bad), lambda m: w[0],
+              f'{len(ps)} realised histories ({len(firsts)} seeded earlier errors of weight 2-4 x all weight-2 errors of one sector), '
+              f'real {Dec.__name__}')
+    return col.result()
+
+
 def worker(cfg, tier='quick'):
+    if cfg.startswith('realreuse'):
+        return w_realreuse(cfg, tier)
     if cfg.startswith('xcubedec'):
         return w_xcube(cfg, tier)
     if cfg.startswith('sweepdec'):
@@ -264,6 +334,27 @@ def replay(path):
         d = json.load(f)
     w, oid, cfg = d['witness'], d['oid'], d['config']
     parts = cfg.split(' ')
+    if w.get('realreuse'):
+        import panqec.decoders as pd_
+        bad = False
+        if 'second' in w:
+            Dec = getattr(pd_, {'unionfind': 'UnionFindDecoder', 'matching': 'MatchingDecoder',
+                                'bposd': 'BeliefPropagationOSDDecoder'}[parts[1]])
+            code = common.make_code(parts[2])
+            em = PauliErrorModel(0.2, 0.3, 0.5)
+            s = code.measure_syndrome(np.array(w['second'], dtype=np.uint8))
+            dec = Dec(code, em, 0.1)
+            dec.decode(code.measure_syndrome(np.array(w['first'], dtype=np.uint8)))
+            r1 = np.asarray(dec.decode(s)).astype(int).tolist()
+            r2 = np.asarray(Dec(code, em, 0.1).decode(s)).astype(int).tolist()
+            print('earlier error', w['first'], 'then', w['second'], ': reused', r1, 'fresh', r2)
+            bad = r1 != r2
+        else:
+            print(w.get('exception'))
+            res = worker(cfg)
+            bad = any(o['oid'] == oid and o['verdict'] == 'sat' for o in res['obs'])
+        print('REPLAY', 'reproduced' if bad else 'not-reproduced', oid, cfg)
+        return 0
     code = common.make_code(parts[1])
     bad = False
     if cfg.startswith('sweepdec') or cfg.startswith('xcubedec'):
@@ -348,6 +439,8 @@ def configs(tier):
     out = ['matching Toric2DCode(2,2)', 'matching RotatedPlanar2DCode(2,3)', 'bposd RotatedPlanar2DCode(2,2) noupdate',
            'bposd RotatedPlanar2DCode(2,2) update', 'bposd Toric2DCode(2,2)/XY noupdate', 'bposd Planar2DCode(2,2) update']
     out += ['xcubedec XCubeCode(2,2,2) 0,5,13']
+    out += ['realreuse unionfind Toric2DCode(3,3)'] + \
+        (['realreuse unionfind Toric2DCode(3,4)', 'realreuse unionfind Toric2DCode(5,5)', 'realreuse matching RotatedPlanar2DCode(3,3)', 'realreuse bposd Toric2DCode(3,3)/XZZX/x'] if tier != 'quick' else [])
     out += ['sweepdec Toric3DCode(2,2,2) sweep 0,5,13', 'sweepdec Planar3DCode(2,2,2) sweep 0,3,7',
             'sweepdec RotatedPlanar3DCode(2,2,2) sweep 0,2,5', 'sweepdec Toric3DCode(2,2,2) sweepmatch 0,5,13',
             'sweepdec RotatedPlanar3DCode(2,2,2) sweepmatch 0,2,5']
